@@ -33,7 +33,7 @@ REQUIRED_BUCKETS = ['order:use-before-definition', 'order:definition-before-use'
                     'step:string', 'step:file', 'step:include', 'macro:scope-like-name', 'macro:evaluated-reference', 'macro:nested-macro', 'macro:literal',
                     'call:between-steps', 'call:unbound-macro-raises', 'const:unique-suffix', 'const:full-name', 'const:ambiguous', 'const:none-falls-to-macro',
                     'const:identity-in-container', 'const:invalid-name', 'const:duplicate', 'finalize:ok', 'finalize:unbound', 'finalize:unevaluated',
-                    'macro:used-twice-in-one-value', 'const:defined-between-parses', 'const:name-became-constant-after-use-as-macro', 'finalize:unbound-with-bound-prefix-macro', 'finalize:after-failed-query-of-unbound-macro', 'finalize:unbound-macro-in-dict-key', 'step:skip_unknown-enabled',
+                    'macro:used-twice-in-one-value', 'const:defined-between-parses', 'const:name-became-constant-after-use-as-macro', 'finalize:unbound-with-bound-prefix-macro', 'finalize:after-failed-query-of-unbound-macro', 'finalize:unbound-macro-in-dict-key', 'finalize:inside-active-config-scope', 'step:skip_unknown-enabled',
                     'history:clear_config-keeps-constants',
                     # extension wave (audit gaps 1-7)
                     'const:char-tail-is-not-a-suffix', 'finalize:macro-redefined-after-finalize', 'step:files_and_bindings', 'step:list',
@@ -675,7 +675,13 @@ def run_case(ctx, case):
       ctx.bucket('finalize:unbound' if unbound else 'finalize:ok')
     ctx.count('finalize_checks')
     try:
-      gin.finalize()
+      if ctx.case_no % 2:
+        # an active config scope while finalizing does not switch the macro validation off
+        ctx.bucket('finalize:inside-active-config-scope')
+        with gin.config_scope('c5scope'):
+          gin.finalize()
+      else:
+        gin.finalize()
       ok = True
     except ValueError:
       ok = False
